@@ -252,8 +252,7 @@ class Ctx:
                     # inner loop back edge: the inner header is already on the path; leave the inner loop
                     continue
                 else:
-                    if f.nodes[s].kind == 'except' and nd.kind != 'try' and not isinstance(nd.stmt, ast.Raise) \
-                            and not _has_index_call(nd):
+                    if f.nodes[s].kind == 'except' and not isinstance(nd.stmt, ast.Raise) and not _has_index_call(nd):
                         continue        # implicit exceptions are not path-enumerated (except X.index(y): ValueError)
                     rec(s, path)
         for s in first:
